@@ -70,6 +70,19 @@ func (c07) Gen(r *sim.Rand, tier string, run uint64) *sim.Scenario {
 				continue
 			}
 			ops = append(ops, op)
+		case x < 68:
+			// a conditional branch right behind an instruction that fixes its condition to
+			// "not taken", or a branch with displacement zero: control still goes to the next
+			// instruction the assembler reported, whatever the displacement byte says
+			ops = append(ops, genStraightBranch(r, flags)...)
+		case x < 71:
+			// a block of one-byte implied instructions emitted as data (EmitBytes)
+			safe := []byte{0xEA, 0x18, 0x38, 0xB8, 0xE8, 0xC8, 0xCA, 0x88, 0x1A, 0x3A}
+			b := make([]byte, sim.PickInt(r, 1, 2, 15, 16, 17, 32, 48, r.Range(1, 40)))
+			for i := range b {
+				b[i] = safe[r.Intn(len(safe))]
+			}
+			ops = append(ops, sim.Op{K: "data", B: b})
 		case x < 85:
 			f := genFlagOp(r)
 			flags = applyFlagOp(flags, f)
@@ -125,7 +138,133 @@ func (c07) Gen(r *sim.Rand, tier string, run uint64) *sim.Scenario {
 	if r.Chance(1, 10) {
 		sc.Cfg["cap"] = int64(r.Range(1, 40))
 	}
+	if r.Chance(1, 2) {
+		sc.Cfg["gentext"] = 1
+	}
 	return sc
+}
+
+// genStraightBranch: [setter, branch] whose condition the setter makes false, or a branch
+// with displacement zero. Exec re-derives admissibility from what was really accepted, so a
+// shrunk or re-ordered history never relies on this generator's intent.
+func genStraightBranch(r *sim.Rand, flags uint8) []sim.Op {
+	disp := int64(int8(sim.PickInt(r, 0, 1, 2, 3, -1, -2, 5, 127, -128, r.Intn(256))))
+	imm := func(name string) sim.Op { return sim.Op{K: "ins", S: name, N: []int64{disp}} }
+	ref := func(name string) []sim.Op {
+		l := int64(r.Intn(allLabelIdx))
+		return []sim.Op{{K: "ref", S: name, N: []int64{l}}, {K: "label", N: []int64{l}}}
+	}
+	switch r.Intn(7) {
+	case 0:
+		return []sim.Op{{K: "ins", S: sim.PickStr(r, "BNE_imm8", "BEQ_imm8", "BPL_imm8", "BRA_imm8"), N: []int64{0}}}
+	case 1:
+		if r.Chance(1, 2) {
+			return append([]sim.Op{{K: "ins", S: "CLC"}}, ref("BCS")...)
+		}
+		return append([]sim.Op{{K: "ins", S: "SEC"}}, ref("BCC")...)
+	case 2:
+		// REP/SEP of condition bits only (N, V, Z, C): the widths stay as they are
+		mask := int64(sim.PickInt(r, 0x80, 0x02, 0x01, 0x83, 0xC3, 0x82))
+		if r.Chance(1, 2) {
+			// SEP: N=1 Z=1 C=1 -> BPL, BNE, BCC fall through
+			out := []sim.Op{{K: "sep", N: []int64{mask}}}
+			switch {
+			case mask&0x80 != 0 && r.Chance(1, 2):
+				return append(out, imm("BPL_imm8"))
+			case mask&0x02 != 0 && r.Chance(1, 2):
+				return append(out, imm("BNE_imm8"))
+			case mask&0x01 != 0:
+				return append(out, ref("BCC")...)
+			case mask&0x80 != 0:
+				return append(out, ref("BPL")...)
+			}
+			return append(out, imm("BNE_imm8"))
+		}
+		out := []sim.Op{{K: "rep", N: []int64{mask}}}
+		switch {
+		case mask&0x80 != 0 && r.Chance(1, 2):
+			return append(out, ref("BMI")...)
+		case mask&0x02 != 0 && r.Chance(1, 2):
+			return append(out, imm("BEQ_imm8"))
+		case mask&0x01 != 0:
+			return append(out, ref("BCS")...)
+		case mask&0x80 != 0:
+			return append(out, ref("BMI")...)
+		}
+		return append(out, imm("BEQ_imm8"))
+	}
+	// a load immediate of the tracked width, then the branch its value rules out
+	reg := sim.PickStr(r, "LDA", "LDA", "LDX", "LDY")
+	wide := flags&0x20 == 0
+	if reg != "LDA" {
+		wide = flags&0x10 == 0
+	}
+	var v int64
+	var name string
+	neg, zero := false, false
+	if wide {
+		v = int64(sim.PickInt(r, 0, 1, 0x7FFF, 0x8000, 0xFFFF, 0x0080, 0x00FF, 0x0100, r.Intn(65536)))
+		name = reg + "_imm16_w"
+		neg, zero = v&0x8000 != 0, v == 0
+	} else {
+		v = int64(sim.PickInt(r, 0, 1, 0x7F, 0x80, 0xFF, r.Intn(256)))
+		name = reg + "_imm8_b"
+		neg, zero = v&0x80 != 0, v == 0
+	}
+	out := []sim.Op{{K: "ins", S: name, N: []int64{v}}}
+	switch r.Intn(4) {
+	case 0:
+		if neg {
+			return append(out, imm("BPL_imm8"))
+		}
+		return append(out, ref("BMI")...)
+	case 1:
+		if neg {
+			return append(out, ref("BPL")...)
+		}
+		return append(out, ref("BMI")...)
+	case 2:
+		if zero {
+			return append(out, imm("BNE_imm8"))
+		}
+		return append(out, imm("BEQ_imm8"))
+	}
+	if zero {
+		return append(out, ref("BNE")...)
+	}
+	return append(out, ref("BEQ")...)
+}
+
+// c07known is what the harness knows about the CPU's condition flags at an instruction
+// boundary: bit set in Mask = the flag's value is fixed to the bit in Val (N $80, Z $02, C $01).
+type c07known struct{ Mask, Val byte }
+
+func (k *c07known) set(bits, val byte) { k.Mask |= bits; k.Val = k.Val&^bits | val&bits }
+
+// notTaken: is the branch certain to fall through?
+func (k c07known) notTaken(method string) bool {
+	name := method
+	if i := len(name) - len("_imm8"); i > 0 && name[i:] == "_imm8" {
+		name = name[:i]
+	}
+	var bit, takenWhen byte
+	switch name {
+	case "BNE":
+		bit, takenWhen = 0x02, 0
+	case "BEQ":
+		bit, takenWhen = 0x02, 0x02
+	case "BPL":
+		bit, takenWhen = 0x80, 0
+	case "BMI":
+		bit, takenWhen = 0x80, 0x80
+	case "BCC":
+		bit, takenWhen = 0x01, 0
+	case "BCS":
+		bit, takenWhen = 0x01, 0x01
+	default:
+		return false
+	}
+	return k.Mask&bit != 0 && k.Val&bit != takenWhen
 }
 
 type c07ev struct {
@@ -144,9 +283,12 @@ func (c07) Exec(sc *sim.Scenario, env *sim.Env) *sim.Violation {
 		capacity = c // a short window into a larger array: the program stops where it no longer fits
 	}
 	tgt, _ := mkTarget(capacity, sc.C("cap") > 0)
-	orig := asm.NewEmitter(tgt, false)
+	gentext := sc.C("gentext") != 0
+	orig := asm.NewEmitter(tgt, gentext)
 	e := orig
-	m := newAsmModel(true, capacity, false)
+	m := newAsmModel(true, capacity, gentext)
+	var known c07known // condition flags fixed by the instructions accepted so far
+	usedRefs := false
 	var evs []c07ev
 	var flagsOverride *uint8
 	seenIns := false
@@ -189,8 +331,27 @@ func (c07) Exec(sc *sim.Scenario, env *sim.Env) *sim.Violation {
 			continue
 		case "ins":
 			am := asmByName[op.S]
-			if am == nil || am.Ctrl || am.IsRef {
-				continue // outside the property's quantifier
+			if am == nil || am.IsRef {
+				continue
+			}
+			if am.Ctrl {
+				// a relative branch stays inside a straight-line sequence when it leads to the
+				// next instruction (displacement 0) or when its condition is known to be false
+				isBranch := len(op.S) > 5 && op.S[0] == 'B' && op.S[len(op.S)-5:] == "_imm8"
+				if !isBranch || !(int8(op.Arg(0)) == 0 || known.notTaken(op.S)) {
+					continue // outside the property's quantifier
+				}
+				st.Probe("branch_in_straight_line")
+			}
+		case "ref":
+			am := asmByName[op.S]
+			if am == nil || !am.IsRef || !am.RefS8 || !known.notTaken(op.S) {
+				continue
+			}
+			st.Probe("branch_in_straight_line")
+		case "data":
+			if !c07safeData(op.B) {
+				continue
 			}
 		case "rep", "sep", "arep", "asep", "label", "comment":
 		case "setbase":
@@ -242,8 +403,41 @@ func (c07) Exec(sc *sim.Scenario, env *sim.Env) *sim.Violation {
 			env.FaultYield("op")
 			continue
 		}
+		// what the accepted call fixes about N, Z and C (anything else: unknown afterwards)
 		switch op.K {
-		case "ins", "rep", "sep":
+		case "label", "comment", "setbase":
+		case "rep":
+			known.set(byte(op.Arg(0))&0x83, 0)
+		case "sep":
+			known.set(byte(op.Arg(0))&0x83, 0xFF)
+		case "ref":
+			usedRefs = true // a branch that falls through changes no flag
+		case "ins":
+			v := op.Arg(0)
+			switch op.S {
+			case "LDA_imm8_b", "LDX_imm8_b", "LDY_imm8_b":
+				known.set(0x82, map[bool]byte{true: 0x80}[v&0x80 != 0]|map[bool]byte{true: 0x02}[v&0xFF == 0])
+			case "LDA_imm16_w", "LDX_imm16_w", "LDY_imm16_w":
+				known.set(0x82, map[bool]byte{true: 0x80}[v&0x8000 != 0]|map[bool]byte{true: 0x02}[v&0xFFFF == 0])
+			case "CLC":
+				known.set(0x01, 0)
+			case "SEC":
+				known.set(0x01, 0x01)
+			case "NOP", "BNE_imm8", "BEQ_imm8", "BPL_imm8", "BRA_imm8":
+			default:
+				known = c07known{}
+			}
+		default:
+			known = c07known{}
+		}
+		switch op.K {
+		case "data":
+			for j := range op.B {
+				evs = append(evs, c07ev{kind: "ins", pc: pcBefore + uint32(j), op: sim.Op{K: "ins", S: fmt.Sprintf("data byte %02x", op.B[j])}})
+			}
+			seenIns = true
+			st.Probe("data_block_as_code")
+		case "ins", "rep", "sep", "ref":
 			evs = append(evs, c07ev{kind: "ins", pc: pcBefore, op: op})
 			seenIns = true
 			if op.K == "ins" {
@@ -274,6 +468,13 @@ func (c07) Exec(sc *sim.Scenario, env *sim.Env) *sim.Violation {
 			return &sim.Violation{Oracle: "append_panic", Step: len(sc.Ops), Msg: sim.PanicString(pv)}
 		}
 		e = orig
+	}
+	if usedRefs {
+		var ferr error
+		if p, _ := sim.RecoverLib(func() { ferr = e.Finalize() }); p || ferr != nil {
+			st.Abort("finalize_failed") // an unresolved or too distant label: C06's business
+			return nil
+		}
 	}
 	prog := append([]byte{}, e.Bytes()...)
 	base := e.GetBase()
@@ -386,6 +587,17 @@ func (c07) Exec(sc *sim.Scenario, env *sim.Env) *sim.Violation {
 	}
 	st.State(sim.HashU64(sim.HashBytes(0, prog), uint64(wantM)<<1|uint64(wantX)))
 	return nil
+}
+
+func c07safeData(b []byte) bool {
+	for _, x := range b {
+		switch x {
+		case 0xEA, 0x18, 0x38, 0xB8, 0xE8, 0xC8, 0xCA, 0x88, 0x1A, 0x3A:
+		default:
+			return false
+		}
+	}
+	return len(b) > 0
 }
 
 func guardName(am *asmMethod) string {
